@@ -800,7 +800,27 @@ class SchedSim(object):
                 'resources': {}, 'slots': [], 'partition': None}
         return uid, task, tdd
 
-    def submit(self, specs):
+    def submit_then_cancel(self, specs, picks):
+        """the tasks reach the scheduler's input queue; a cancel request naming some of them
+        arrives before the scheduler takes them in"""
+        uids = self.submit(specs, intake=False)
+        if not uids:
+            return
+        named = []
+        for k in picks:
+            u = uids[int(k) % len(uids)]
+            if u not in named:
+                named.append(u)
+        for u in named:
+            self.cancel_req.add(u)
+        self.labels.add('cancel_before_intake')
+        self.pub_ctrl.put(rpc.CONTROL_PUBSUB, {'cmd': 'cancel_tasks',
+                                               'arg': {'uids': named, 'tmgr': 'tmgr.0000'}})
+        self._absorb()
+        self.P.work_cb()
+        self._absorb()
+
+    def submit(self, specs, intake=True):
         tasks = []
         for spec in specs:
             uid, task, tdd = self.mk_task(spec)
@@ -815,6 +835,8 @@ class SchedSim(object):
         if not tasks:
             return
         self.net.q_put(self.url_sched, 'default', tasks)
+        if not intake:
+            return [t['uid'] for t in tasks]
         self.P.work_cb()                     # real intake of the parent
         self._absorb()
 
@@ -1044,6 +1066,8 @@ def run_history(case):
             kind = op[0]
             if kind == 'submit':
                 sim.submit(op[1])
+            elif kind == 'submit_cancel':
+                sim.submit_then_cancel(op[1], op[2])
             elif kind == 'submit_app':
                 sim.submit_app(op[1])
             elif kind == 'finish':
